@@ -405,27 +405,31 @@ impl PersistBackend for FilePersist {
             return Ok(());
         }
 
-        // Handle WAL based on durability mode
-        match self.config.durability_mode {
-            DurabilityMode::Immediate => {
-                // Write to WAL with immediate sync (safest)
-                let mut wal = self.wal.lock();
-                wal.append_batch(shard, updates)?;
-            }
-            DurabilityMode::Batched => {
-                // Write to WAL without sync (faster, batched durability)
-                let mut wal = self.wal.lock();
-                wal.append_batch_buffered(shard, updates)?;
-            }
-            DurabilityMode::Async => {
-                // Skip WAL entirely for maximum speed (in-memory only until flush).
-                // Data WILL be lost on crash. Only use for ephemeral/reproducible data.
-            }
-        }
-
-        // Add to buffer
+        // WAL append and buffer insertion form one critical section with respect
+        // to flush(), which drops all of the shard's WAL entries while holding the
+        // shard map lock. Lock order (shards, then wal) matches flush().
         let should_flush = {
             let mut shards = self.shards.write();
+
+            // Handle WAL based on durability mode
+            match self.config.durability_mode {
+                DurabilityMode::Immediate => {
+                    // Write to WAL with immediate sync (safest)
+                    let mut wal = self.wal.lock();
+                    wal.append_batch(shard, updates)?;
+                }
+                DurabilityMode::Batched => {
+                    // Write to WAL without sync (faster, batched durability)
+                    let mut wal = self.wal.lock();
+                    wal.append_batch_buffered(shard, updates)?;
+                }
+                DurabilityMode::Async => {
+                    // Skip WAL entirely for maximum speed (in-memory only until flush).
+                    // Data WILL be lost on crash. Only use for ephemeral/reproducible data.
+                }
+            }
+
+            // Add to buffer
             let state = shards
                 .entry(shard.to_string())
                 .or_insert_with(|| ShardState {
